@@ -102,7 +102,7 @@ def build(spec, pres=None, interp=True, weights_transform=None, dtype=None, requ
             elif pres['ids'] == 'explicit':
                 nid = 'N%d_%d' % (ri, i)
             elif pres['ids'] == 'explicit2':
-                nid = 'm%s' % ('abcdefgh'[(7 - i) % 8]) + str(ri)
+                nid = 'm%s' % ('abcdefgh'[(7 - i) % 8]) + str(ri) + ('' if i < 8 else '_%d' % i)
             elif pres['ids'] == 'explicit3':
                 nid = 'x' if i == 0 else 'x_%d' % i      # ids that are prefixes/suffix-variants of each other
             nodes[i] = F.Node(nls[v['label']], id=nid)
